@@ -240,6 +240,21 @@ fn oracle_c12(case: &Case, outs: &[ImplRes]) -> Result<(), String> {
             // int-status entries end with value `01`?? (empty octet string) and signature absent
             expect_eq("integer value", e, &want)
         }
+        "tlf-huge-list" => {
+            // the announced number is the declared one; as the input cannot hold that many entries the next
+            // item is an error (never the end of the iteration, never another message)
+            let t = unhex(&case.aux[0]).unwrap();
+            let n = match tlf_rule(&t, 0) {
+                Ok((7, v, _)) => v,
+                _ => return Ok(()),
+            };
+            let its = items(main);
+            expect_eq("announced list length", first, &format!("MS(x,0,0,GS(~,x,~,~,{}))", n))?;
+            match its.get(1) {
+                Some(s) if s.starts_with("err:") => Ok(()),
+                other => Err(format!("a list declaring {} entries in a {}-byte input was followed by {:?} instead of an error", n, case.lines[0].len() / 2, other)),
+            }
+        }
         "tlf-long-octet" => expect_eq("octet string behind a very long type-length field", first, &case.aux[0]),
         "bool-value" => {
             let b = unhex(&case.aux[1]).unwrap()[0];
